@@ -6,7 +6,7 @@ import re
 
 from ..lin import Lin
 from ..avals import *   # noqa
-from ..decide import benign_unknown, Runs, need_ge0, need_eq0, definite, soft, iterations
+from ..decide import require_instances, benign_unknown, Runs, need_ge0, need_eq0, definite, soft, iterations
 from ..report import Ob, PROVED, REFUTED, UNDECIDED, func_where, ASSUMPTIONS, Failure
 from ..model import norm_text, AnalysisError
 from . import common
@@ -19,6 +19,28 @@ CSV_VALUE_KWARGS = {'skipinitialspace', 'quoting', 'quotechar', 'escapechar', 'd
 
 def it_resolve(p, v):
     return p.interp.resolve(v)
+
+
+CSV_DEFAULTS = {'skipinitialspace': False, 'quotechar': '"', 'escapechar': None, 'delimiter': ',', 'doublequote': True, 'strict': False,
+                'restkey': None, 'dialect': 'excel'}
+
+
+def csv_changes(p, kwargs, names, writer):
+    """the csv options among `names` that are given a value other than their documented default"""
+    out = []
+    dflt = dict(CSV_DEFAULTS, restval='' if writer else None)
+    for k in sorted(set(kwargs) & names):
+        v = it_resolve(p, kwargs[k])
+        if k in dflt:
+            d = dflt[k]
+            if isinstance(v, ConstV) and v.value == d and type(v.value) is type(d):
+                continue
+            if isinstance(v, SeqV) and v.is_lit() and isinstance(d, str) and v.lit_value() == d:
+                continue
+        if k == 'quoting' and 'QUOTE_MINIMAL' in repr(v):
+            continue
+        out.append(k)
+    return out
 
 
 def check(prog, res, tier):
@@ -86,7 +108,7 @@ def check(prog, res, tier):
             for e in readers:
                 if not e.data['args'] or e.data['args'][0] is not u['fin']:
                     fails.append(definite('the CSV reader is not given the input file', e.node))
-                extra = sorted(set(e.data['kwargs']) & CSV_VALUE_KWARGS)
+                extra = csv_changes(p, e.data['kwargs'], CSV_VALUE_KWARGS, False)
                 if extra or len(e.data['args']) > 1:
                     fails.append(definite(f'the CSV reader is configured with {extra or "positional options"}, which changes how cell '
                                           f'values are read (e.g. leading spaces, quoting)', e.node))
@@ -98,6 +120,8 @@ def check(prog, res, tier):
                            func_where(fi), 'IpmWriter(out_ipm, encoding=out_encoding, blocked=blocked, iso_config=...) / DictReader(in_csv)',
                            chk, rule='C20.a.csv_to_ipm', unknown_ok=benign_unknown))
 
+        seen_w = {'n': 0}
+
         def chk_rows(p, mode):
             """every row is written: one write per loop iteration, with the dict built from that row"""
             fails = []
@@ -108,11 +132,16 @@ def check(prog, res, tier):
                     continue
                 n = len([e for e in p.events if e.kind == 'call' and e.data.get('summary') and e.data['callee'].endswith('Writer.write')
                          and first < e.seq < last])
+                seen_w['n'] += mode == 'inv'
                 if n != 1:
                     fails.append(definite(f'{n} records are written per CSV row', head.node))
+            if p.interp.user.get('write_many'):
+                seen_w['n'] += mode == 'inv'
             return fails
-        res.add(runs.judge('C20.a', 'mci_csv_to_ipm writes exactly one record per CSV row', func_where(fi), 'for row in reader: writer.write(record)',
-                           chk_rows, rule='C20.a.rows', unknown_ok=benign_unknown))
+        res.add(require_instances(
+            runs.judge('C20.a', 'mci_csv_to_ipm writes exactly one record per CSV row', func_where(fi), 'for row in reader: writer.write(record)',
+                       chk_rows, rule='C20.a.rows', unknown_ok=benign_unknown),
+            seen_w['n'], 'a loop over the CSV rows that writes records (or a write_many of the rows)'))
 
     # ---- C20.a ipm -> csv
     if prog.has_func('cli.mci_ipm_to_csv.mci_ipm_to_csv'):
@@ -158,7 +187,7 @@ def check(prog, res, tier):
                 fn = e.data['kwargs'].get('fieldnames', e.data['args'][1] if len(e.data['args']) > 1 else None)
                 if fn is not u['ode']:
                     fails.append(definite("the CSV columns are not config['output_data_elements']", e.node))
-                extra = sorted(set(e.data['kwargs']) & (CSV_VALUE_KWARGS - {'dialect'}))
+                extra = csv_changes(p, e.data['kwargs'], CSV_VALUE_KWARGS - {'dialect'}, True)
                 if extra:
                     fails.append(definite(f'the CSV writer is configured with {extra}, which changes how cell values are written', e.node))
             return fails
@@ -166,6 +195,8 @@ def check(prog, res, tier):
                                      'no1014blocking; csv.DictWriter on the output restricted to the configured columns',
                             func_where(fi2), 'IpmReader(in_ipm, encoding=in_encoding, blocked=blocked, iso_config=...)', chk2,
                             rule='C20.a.ipm_to_csv', unknown_ok=benign_unknown))
+
+        seen_rows = {'n': 0}
 
         def chk_rows2(p, mode):
             fails = []
@@ -176,8 +207,16 @@ def check(prog, res, tier):
                         and any(isinstance(n, ast.Attribute) and n.attr == 'writerow' for n in ast.walk(head.node)):
                     fails.append(definite(f'{len(rows)} CSV rows are written per record', head.node))
             for e in p.events:
-                if e.kind == 'method' and e.data['name'] == 'writerow' and e.data['args']:
-                    row = e.data['args'][0]
+                if e.kind == 'method' and e.data['name'] in ('writerow', 'writerows') and e.data['args']:
+                    row = it_resolve(p, e.data['args'][0])
+                    if e.data['name'] == 'writerows':
+                        # all rows at once: the generic element of the iterable is the row
+                        row = it_resolve(p, getattr(row, 'elem', None)) if isinstance(row, (IterV, ListV)) and \
+                            getattr(row, 'items', None) is None else None
+                        if row is None:
+                            fails.append(soft('the rows handed to writerows() are not a collection the analysis follows', e.node))
+                            continue
+                    seen_rows['n'] += mode == 'inv'
                     comp = getattr(row, 'comp', None)
                     if isinstance(row, DictV) and comp is not None:
                         ev, srcs, filtered = comp
@@ -192,6 +231,31 @@ def check(prog, res, tier):
                                                   e.node, firm=bool(known)))
                         elif o[0] == 'method' and o[2] != 'get':
                             fails.append(definite(f'a CSV cell is derived through .{o[2]}() from the record value', e.node))
+                        else:
+                            # the record the cell is read from: no cell may be kept or dropped by the truthiness of its value
+                            rec = it_resolve(p, o[1])
+                            for kind, truth_, data in p.facts:
+                                fo = getattr(data.get('sym'), 'origin', None) if kind == 'truth' else None
+                                if isinstance(fo, tuple) and len(fo) >= 3 and fo[0] in ('item', 'method') and \
+                                        it_resolve(p, fo[1]) is rec and (fo[0] == 'item' or fo[2] == 'get'):
+                                    fails.append(definite('a cell is written or left out depending on the truthiness of the record value: a '
+                                                          'value of 0 (DE4, DE71 ...) or an empty string does not come back', e.node, firm=True))
+                                    break
+            # a cell must not be dropped (or chosen) by the truthiness of its value: 0 and '' are values
+            for first, last, s0, s1, head in iterations(p, func=dfi.short):
+                li = [e for e in p.events if e.kind == 'loop-iter' and e.node is head.node and first <= e.seq < last]
+                elem = li[-1].data.get('elem') if li else None
+                if elem is None or not any(e.kind == 'method' and e.data['name'] in ('writerow',) and first < e.seq < last for e in p.events):
+                    continue
+                for kind, truth_, data in p.facts:
+                    if kind != 'truth':
+                        continue
+                    o = getattr(data.get('sym'), 'origin', None)
+                    if isinstance(o, tuple) and len(o) >= 3 and o[0] in ('item', 'method') and it_resolve(p, o[1]) is it_resolve(p, elem) \
+                            and (o[0] == 'item' or o[2] == 'get'):
+                        fails.append(definite('a cell is written or left out depending on the truthiness of the record value: a value of 0 '
+                                              '(DE4, DE71 ...) or an empty string does not come back', head.node, firm=True))
+                        break
             # the dict written for a record must not be an object shared by all iterations that is only added to:
             # values of an earlier record would stay in the columns a later record does not have
             for first, last, s0, s1, head in iterations(p, func=dfi.short):
@@ -213,9 +277,11 @@ def check(prog, res, tier):
             if p.outcome == 'return' and len(hdr) != 1:
                 fails.append(definite(f'the header row is written {len(hdr)} times'))
             return fails
-        res.add(runs2.judge('C20.a', 'dicts_to_csv writes the header once and one row per record', func_where(dfi),
-                            'writer.writeheader(); for data_item in data_list: writer.writerow(...)', chk_rows2, rule='C20.a.rows2',
-                            unknown_ok=benign_unknown))
+        res.add(require_instances(
+            runs2.judge('C20.a', 'dicts_to_csv writes the header once and one row per record', func_where(dfi),
+                        'writer.writeheader(); for data_item in data_list: writer.writerow(...)', chk_rows2, rule='C20.a.rows2',
+                        unknown_ok=benign_unknown),
+            seen_rows['n'], 'a row handed to the CSV writer (writerow / writerows)'))
 
     # ---- C20.b producible columns
     cfg = prog.config_literal()
